@@ -1,10 +1,11 @@
+\* wrong design: one deadline for the whole exchange armed before the password prompt
 SPECIFICATION Spec
 CONSTANTS
     Replies <- MCReplies
     Delays = {"none", "short", "long"}
     Prompts = {"fast", "slow"}
-    DeadlineFrom = "io"
-    EofCheck = "stale-errno"
+    DeadlineFrom = "init"
+    EofCheck = "eof"
     WriteMode = "nosignal"
     EmitEdges = FALSE
 INVARIANTS PamSuccessOnlyOnOK PamSuccessOnOK PamYieldsCode
